@@ -4,7 +4,8 @@ Decided (narrow, structural): in gca_gca_intersection every point appended to th
 the two candidates are the normalised intersection direction and its antipode; the absolute tolerance of the parallel-planes test is below the smallest magnitude the unnormalised double cross product
 can have for inputs the property admits (margin 1e-6 rad); _decide_pole_latitude is antisymmetric under the mirror z -> -z and switches pole when the extent exceeds pi (truth table over its two atoms);
 every return of extreme_gca_latitude is max/min over a set containing both endpoint latitudes and its interior candidate is the stationary point (shared with C13).
-NOT decided - and this is most of the property: whether the tolerances of the on-circle and in-between tests make the predicates agree with exact geometry for all admissible arcs, and invariance under swaps/rotation."""
+NOT decided - and this is most of the property: whether the tolerances of the on-circle and in-between tests make the predicates agree with exact geometry for all admissible arcs, and invariance under swaps/rotation.
+The isclose/allclose wrappers forward rtol and atol unchanged; no squared length is compared with a length tolerance; library tolerances keep the pinned values."""
 
 import ast
 import itertools
